@@ -91,9 +91,14 @@ func routingScenario(s *Sim, params map[string]string) {
 			}
 		}
 	}
-	if t.Intn("cfg", 3) == 0 {
+	switch t.Intn("cfg", 4) {
+	case 0:
 		// coordinator lookups that fail (coordinator loading / not available)
 		cl.F = FaultCfg{ErrorCode: Pick(t, "cfg", 50, 200), APIs: map[int16]bool{10: true}}
+	case 1:
+		// a metadata request that is never answered (at most two per run):
+		// the refresh gives up after MetadataTTL and the next one follows
+		cl.F = FaultCfg{Stall: Pick(t, "cfg", 100, 300), APIs: map[int16]bool{3: true}, StallReset: 30 * time.Second, Max: 2}
 	}
 	ngrp := t.Range("cfg", 1, 4)
 	for gi := 0; gi < ngrp; gi++ {
@@ -122,6 +127,7 @@ func routingScenario(s *Sim, params map[string]string) {
 	elections := false // some partition has been without a leader in this run
 	// metadata snapshots delivered to the client (from the journal, at the end)
 	var moves []time.Duration
+	var lastEvent time.Duration // last instant the cluster changed
 	nmoves := t.Range("cfg", 0, 5)
 	endAt := time.Duration(t.Range("cfg", 2, 12)) * time.Second
 	for i := 0; i < nmoves; i++ {
@@ -129,6 +135,7 @@ func routingScenario(s *Sim, params map[string]string) {
 		kind := t.Intn("fault", 7)
 		s.After(at, "cluster-change", func() {
 			moves = append(moves, s.Now())
+			lastEvent = s.Now()
 			switch kind {
 			case 6:
 				// a leader election in progress: for a while the partition has no
@@ -159,6 +166,7 @@ func routingScenario(s *Sim, params map[string]string) {
 					}
 					p.Err = 0
 					cl.MoveLeader(p, to)
+					lastEvent = s.Now()
 				})
 			case 4, 5:
 				// a broker is restarted in place (same id and address) and comes
@@ -176,6 +184,7 @@ func routingScenario(s *Sim, params map[string]string) {
 						drawTable(b, "fault")
 					}
 					cl.SetBrokerUp(b, true)
+					lastEvent = s.Now()
 				})
 			case 0, 1:
 				tn := topics[t.Intn("fault", len(topics))]
@@ -275,6 +284,21 @@ func routingScenario(s *Sim, params map[string]string) {
 							if tp.Name != tn {
 								s.Fail("C12", "R4-metadata-filter", "Client.Metadata(%s) returned topic %s", tn, tp.Name)
 							}
+							// C19: once the cluster has been left alone for a few
+							// refresh periods the cache shows its current leaders
+							settled := s.Now()-lastEvent > 3*ttl+2*time.Second && cl.F.ErrorCode == 0
+							for _, jr := range cl.Journal {
+								if jr.Hdr.APIKey == 3 && jr.Fault == "stall" && jr.At > s.Now()-(3*ttl+2*time.Second) {
+									settled = false
+								}
+							}
+							if settled && tp.Error == nil {
+								for _, pp := range tp.Partitions {
+									if cur := cl.Part(tn, int32(pp.ID)); cur != nil && cur.Leader >= 0 && int32(pp.Leader.ID) != cur.Leader {
+										s.Fail("C19", "R4-metadata-stale", "Client.Metadata(%s) reports leader %d for partition %d; the leader has been %d since %v and nothing has happened in the cluster since %v (now %v, MetadataTTL %v)", tn, pp.Leader.ID, pp.ID, cur.Leader, cur.LeaderSince, lastEvent, s.Now(), ttl)
+									}
+								}
+							}
 							if tp.Error == nil && len(tp.Partitions) != np {
 								s.Fail("C12", "R4-metadata-filter", "Client.Metadata(%s) returned %d partitions, the topic has had %d since creation", tn, len(tp.Partitions), np)
 							}
@@ -294,7 +318,8 @@ func routingScenario(s *Sim, params map[string]string) {
 						}
 					}
 				case 8:
-					client.InitProducerID(ctx, &kafka.InitProducerIDRequest{TransactionalID: fmt.Sprintf("tx%d", t.Intn("work", 3)), TransactionTimeoutMs: 1000})
+					// (an application that uses its own name as group id and as transactional id)
+					client.InitProducerID(ctx, &kafka.InitProducerIDRequest{TransactionalID: fmt.Sprintf("rg%d", t.Intn("work", ngrp)), TransactionTimeoutMs: 1000})
 				}
 				cancel()
 				s.Count("ops")
@@ -355,15 +380,29 @@ func routingOracle(s *Sim, cl *Cluster, ttl, maxLat time.Duration, moves, downAt
 			}
 			snaps = append(snaps, sn)
 		case 10:
-			if r.Resp.I16("error_code") != 0 {
-				coordErrAt[r.Body.Str("key")] = append(coordErrAt[r.Body.Str("key")], r.RespFullAt)
+			// (group ids and transactional ids are separate namespaces)
+			ck := r.Body.Str("key")
+			if r.Body.I8("key_type") == 1 {
+				ck = "txn:" + ck
 			}
-			if r.Resp.I16("error_code") == 0 {
-				k := r.Body.Str("key")
-				coord[k] = append(coord[k], struct {
-					at   time.Duration
-					node int32
-				}{r.RespFullAt, r.Resp.I32("node_id")})
+			cks := []string{ck}
+			if r.Hdr.APIVersion == 0 {
+				// version 0 has no key type: a broker that old has no
+				// transaction coordinators, and a client that asks it on behalf
+				// of a transactional id is answered as for a group
+				cks = []string{ck, "txn:" + ck}
+			}
+			for _, ck := range cks {
+				if r.Resp.I16("error_code") != 0 {
+					coordErrAt[ck] = append(coordErrAt[ck], r.RespFullAt)
+				}
+				if r.Resp.I16("error_code") == 0 {
+					k := ck
+					coord[k] = append(coord[k], struct {
+						at   time.Duration
+						node int32
+					}{r.RespFullAt, r.Resp.I32("node_id")})
+				}
 			}
 		}
 	}
@@ -443,8 +482,14 @@ func routingOracle(s *Sim, cl *Cluster, ttl, maxLat time.Duration, moves, downAt
 		case 19, 20:
 			what = "controller"
 			want = func(sn snapshot) (int32, bool) { return sn.controller, sn.controller >= 0 }
-		case 8, 9, 11, 12, 13, 14:
+		case 8, 9, 11, 12, 13, 14, 22:
 			gid := r.Body.Str("group_id")
+			if k == 22 {
+				if r.Body["transactional_id"] == nil {
+					continue
+				}
+				gid = "txn:" + r.Body.Str("transactional_id")
+			}
 			// the coordinator named by a FindCoordinator answer delivered before
 			ok := false
 			any := false
@@ -486,12 +531,28 @@ func routingOracle(s *Sim, cl *Cluster, ttl, maxLat time.Duration, moves, downAt
 					}
 				}
 			}
-			if p := leaderOf(); p != nil && p.Leader != b.ID && hadMetadata && !disturbed && r.At-p.LeaderSince > ttl+12*maxLat+100*time.Millisecond && cl.F.ErrorCode == 0 {
+			// (each metadata request that is never answered costs its time-out
+			// and the refresh after it)
+			var extra time.Duration
+			if p := leaderOf(); p != nil {
+				for _, jr := range cl.Journal {
+					if jr.Hdr.APIKey == 3 && jr.Fault == "stall" && jr.At >= p.LeaderSince-2*ttl-time.Second && jr.At <= r.At {
+						extra += 2*ttl + time.Second
+					}
+				}
+			}
+			if p := leaderOf(); p != nil && p.Leader != b.ID && hadMetadata && !disturbed && r.At-p.LeaderSince > ttl+12*maxLat+100*time.Millisecond+extra && cl.F.ErrorCode == 0 {
 				s.Fail("C12", "R3-stale-leader", "%s request #%d arrived at broker %d at %v, but broker %d has been %s since %v: more than MetadataTTL (%v) plus a round trip ago", r.API.Name, r.Idx, b.ID, r.At, p.Leader, what, p.LeaderSince, ttl)
 			}
 		}
 		w := window(r.At)
 		if len(w) == 0 {
+			continue
+		}
+		if snaps[0].at > r.At-6*maxLat-20*time.Millisecond {
+			// the request may have been routed (then dialled, handshaken and
+			// sent) before the client had received any metadata at all: it
+			// falls back to a bootstrap address
 			continue
 		}
 		ok := false
